@@ -80,6 +80,11 @@ static int fiber_context_alloc_stack(fiber_context_t* context,
   int off = 0;
   __splitstack_block_signals_context(context->splitstack_context, &off, NULL);
 #elif defined(FIBER_STACK_MALLOC)
+  // the initial frame is written below the top of the block: never allocate
+  // less than the documented minimum (FIBER_MIN_STACK_SIZE in fiber.h)
+  if (stack_size < 1024) {
+    stack_size = 1024;
+  }
   context->ctx_stack = malloc(stack_size);
   context->ctx_stack_size = stack_size;
 #elif defined(FIBER_STACK_MMAP)
